@@ -92,7 +92,7 @@ def body(c):
         c.cov.setdefault("size_cases_generated", {})[name] = len(allcases)
         for dbmode, digs in (("managed", [1, 2, 3, 10, 20]), ("plain", [1, 2, 3])):
             cases = [h for h in allcases if h[-1]["d"] in digs]
-            cap = 3000 if q else 60000
+            cap = 3000 if q else 20000
             if len(cases) > cap:
                 t = [h for h in cases if h[-1]["tight"]]
                 o = [h for h in cases if not h[-1]["tight"]]
@@ -114,7 +114,7 @@ def body(c):
     for nso, inmem, thr in ((3, False, 64), (-1, False, 64), (0, True, 64), (3, True, 2048)):
         if q and (nso, inmem, thr) in ((-1, False, 64), (3, True, 2048)):
             continue
-        k = L.K(NsOffset=nso, InMemory=inmem, Thr=thr, VlogFileSize=1 << 20, KeyClasses=KEYCLASSES, ValClasses=VALCLASSES,
+        k = L.K(NsOffset=nso if nso >= 0 else 1000, InMemory=inmem, Thr=thr, VlogFileSize=1 << 20, KeyClasses=KEYCLASSES, ValClasses=VALCLASSES,
                 MaxWrites=2)
         if q:   # seeded sample of the behaviours (TLC -simulate); the thorough tier enumerates all of them
             cases = L.gen(c, "TxnValidGen", "ns%d-%s-thr%d" % (nso, "inmem" if inmem else "disk", thr), k,
@@ -124,7 +124,7 @@ def body(c):
             cases = L.gen(c, "TxnValidGen", "ns%d-%s-thr%d" % (nso, "inmem" if inmem else "disk", thr), k,
                           invariants=("Emit", "RefusedInvisible"), timeout=900)
         c.cov.setdefault("valid_cases_generated", {})["ns%d-inmem%s-thr%d" % (nso, inmem, thr)] = len(cases)
-        cap = 600 if q else 12000
+        cap = 600 if q else (6000 if inmem else 3000)
         if len(cases) > cap:
             cases = rnd.sample(cases, cap)
         args = ["-mode", "valid", "-nsoffset", str(nso), "-vthreshold", str(thr)] + (["-inmem"] if inmem else [])
@@ -143,7 +143,7 @@ def body(c):
                      "DB configurations; validation cases: optional ban, up to 2 writes over 10 key classes x 6 value classes, commit, "
                      "optional ban, read of every key class; non-trivial = at least one write followed by commit / at least one refused "
                      "write; distinct = distinct step sequences" % (3 if q else 4))
-    c.cov["exhaustive"] = not q
+    c.cov["exhaustive"] = False   # sequences are enumerated by TLC, replays above the caps are seeded samples
     c.assumptions += ["the limits (maxBatchSize, maxBatchCount, value threshold, bytes reserved for the end marker) are read from the opened DB "
                       "and given to TLC as constants; the accounting formulas themselves are the specification's",
                       "one transaction writes distinct keys (a key overwritten inside a transaction is charged twice by checkSize but sent once; "
